@@ -451,6 +451,21 @@ class SigmaRuleBase:
             ).isoformat()
 
         # custom attributes
+        # (the names the rule parser never takes as custom attribute)
+        reserved = set(self.__dataclass_fields__.keys()) - {
+            "errors",
+            "source",
+            "applied_processing_items",
+        }
+        for name in self.custom_attributes:
+            if name in reserved:
+                # e.g. set by a processing pipeline: the value would replace the rule attribute of
+                # the same name in the output and be parsed as this attribute again.
+                raise sigma_exceptions.SigmaValueError(
+                    f"Custom attribute '{name}' can't be serialized because it has the name of a "
+                    "rule attribute.",
+                    source=self.source,
+                )
         d.update(self.custom_attributes)
 
         return d
